@@ -74,7 +74,7 @@ pub struct LiveNode {
     pub snap: CoreSnapshot,
     pub stored: BTreeSet<Digest>,
     pub stored_map: BTreeMap<Digest, u64>,
-    pub delivered_ok: BTreeSet<Digest>,
+    pub delivered_ok: BTreeMap<Digest, u64>,
     pub odd: BTreeSet<Digest>,
     pub hist: Hist,
     pub panicked: bool,
@@ -108,7 +108,7 @@ impl LiveNode {
             snap: canon_snapshot(&snap, uni.canon_certs),
             stored: BTreeSet::new(),
             stored_map: BTreeMap::new(),
-            delivered_ok: BTreeSet::new(),
+            delivered_ok: BTreeMap::new(),
             odd: BTreeSet::new(),
             hist: Hist::default(),
             panicked: false,
@@ -125,7 +125,7 @@ impl LiveNode {
             node: self.idx as u8,
             snap: self.snap.clone(),
             stored: self.stored_map.clone(),
-            parked: self.delivered_ok.difference(&self.stored).cloned().collect(),
+            parked: self.delivered_ok.iter().filter(|(d, _)| !self.stored.contains(*d)).map(|(d, h)| (d.clone(), *h)).collect(),
             odd: self.odd.clone(),
             hist: self.hist.clone(),
             panicked: self.panicked,
@@ -150,7 +150,7 @@ impl LiveNode {
 
     /// digest -> hash of the (canonical) stored bytes: two variants of one block that differ in the
     /// signer set of the embedded certificate are different store contents (the Helper serves them).
-    fn read_stored_blocks(&self, uni: &Universe) -> BTreeMap<Digest, u64> {
+    fn read_stored_blocks(&self, uni: &Universe) -> BTreeMap<Digest, (u64, Block)> {
         let mut s = BTreeMap::new();
         let map = self.node.mem.as_ref().unwrap().lock().unwrap();
         for (k, v) in map.iter() {
@@ -158,7 +158,7 @@ impl LiveNode {
                 if let Ok(b) = bincode::deserialize::<Block>(v) {
                     if b.digest().to_vec() == *k {
                         let canon = canon_msg(&ConsensusMessage::Propose(b.clone()), uni.canon_certs);
-                        s.insert(b.digest(), crate::util::hash64(&canon));
+                        s.insert(b.digest(), (crate::util::hash64(&canon), b));
                     }
                 }
             }
@@ -180,7 +180,8 @@ impl LiveNode {
         let pre_stored = self.stored.clone();
         let post_raw = self.node.snapshot().expect("snapshot");
         let post = canon_snapshot(&post_raw, uni.canon_certs);
-        let post_stored_map = self.read_stored_blocks(uni);
+        let post_stored_full = self.read_stored_blocks(uni);
+        let post_stored_map: BTreeMap<Digest, u64> = post_stored_full.iter().map(|(k, v)| (k.clone(), v.0)).collect();
         let post_stored: BTreeSet<Digest> = post_stored_map.keys().cloned().collect();
         let mut findings: Vec<Finding> = Vec::new();
         let mut wit = Witness::default();
@@ -247,7 +248,8 @@ impl LiveNode {
             delivered_block = Some(b);
             let acceptable = w.ref_valid_block(b) && b.author == w.name(w.ref_leader(b.round));
             if acceptable {
-                self.delivered_ok.insert(b.digest());
+                let canon = canon_msg(&ConsensusMessage::Propose(b.clone()), uni.canon_certs);
+                self.delivered_ok.entry(b.digest()).or_insert(crate::util::hash64(&canon));
             }
         }
 
@@ -263,7 +265,9 @@ impl LiveNode {
             for (round, vd, _w, signers) in &post.votes {
                 if signers.contains(&my_name) {
                     let before = pre.votes.iter().any(|(r, d, _, s)| r == round && d == vd && s.contains(&my_name));
-                    if !before {
+                    // its own earlier wire vote handed back to it is not a new signature
+                    let echoed = matches!(delivered, Some(ConsensusMessage::Vote(v)) if v.author == my_name && vote_digest(&v.hash, v.round) == *vd);
+                    if !before && !echoed {
                         match vd_to_block.get(vd) {
                             Some(b) => leader_votes.push((b.digest(), *round)),
                             None => leader_votes.push((vd.clone(), *round)),
@@ -324,7 +328,8 @@ impl LiveNode {
             if self.hist.timeouts.contains(round) {
                 find("C03", "vote:after-timeout".into(), format!("n{} voted in round {} after issuing a timeout for it", me, round));
             }
-            match uni.block(hash) {
+            let voted_instance: Option<Arc<Block>> = post_stored_full.get(hash).map(|v| Arc::new(v.1.clone())).or_else(|| uni.block(hash));
+            match voted_instance {
                 Some(b) => {
                     if b.round != *round {
                         find("C03", "vote:round-mismatch".into(), format!("n{} vote round {} != block round {}", me, round, b.round));
@@ -642,9 +647,9 @@ impl LiveNode {
             if let Some(b) = delivered_block {
                 candidates.push(Arc::new(b.clone()));
             }
-            for d in post_stored.difference(&pre_stored) {
-                if let Some(b) = uni.block(d) {
-                    candidates.push(b);
+            for (d, v) in post_stored_full.iter() {
+                if self.stored_map.get(d) != Some(&v.0) {
+                    candidates.push(Arc::new(v.1.clone()));
                 }
             }
             for b in &own_proposals {
@@ -676,7 +681,7 @@ impl LiveNode {
         // ---- witnesses about parking / rejection ----
         if let Some(b) = delivered_block {
             let d = b.digest();
-            let acceptable = self.delivered_ok.contains(&d);
+            let acceptable = self.delivered_ok.contains_key(&d);
             if acceptable && !post_stored.contains(&d) {
                 wit.parked = true;
             }
